@@ -152,8 +152,13 @@ func checkC05(c CaseC05, info *Info) *Failure {
 		if err != nil {
 			return failf("encode-error", "enc %d: %v", c.Enc, err)
 		}
+		keepX := append([]byte(nil), x...)
 		mxj.XmlCheckIsValid(true)
 		x2, err2 := c.encode()
+		disturb()
+		if !bytes.Equal(x, keepX) {
+			return failf("result-overwritten-by-later-call", "enc %d: the encoder's result changed when other values were encoded afterwards", c.Enc)
+		}
 		if err2 != nil || !bytes.Equal(x, x2) {
 			return failf("validity-check-changes-output", "enc %d: with check %q,%v without %q", c.Enc, x2, err2, x)
 		}
